@@ -90,6 +90,10 @@ func genWire(t *rapid.T, v reflect.Value, depth int) {
 		v.SetInt(int64(pick(t, []int32{0, 1, -1, 1 << 30, -1 << 31}, "i32")))
 	case reflect.String:
 		n := pick(t, append(opaqueLens, 65, 67), "strlen")
+		if rapid.IntRange(0, 5).Draw(t, "boundlen") == 0 {
+			// the protocol's string bounds: MNTNAMLEN 255, MNTPATHLEN 1024 (both sides of each)
+			n = pick(t, []int{254, 255, 256, 300, 1023, 1024, 1025}, "strlen2")
+		}
 		v.SetString(strings.Repeat("s", n))
 		if n > 0 && rapid.Bool().Draw(t, "bin") {
 			b := rapid.SliceOfN(rapid.Byte(), n, n).Draw(t, "strbytes")
